@@ -541,6 +541,10 @@ sa_addr_port_to_str(const sockaddr_storage_t *addr, char *buf,
 			goto err_out;
 		break;
 	case AF_INET6:
+		if (3 > buf_size) { /* '[' + ']' + zero. */
+			error = ENOSPC;
+			goto err_out;
+		}
 		error = sa_addr_to_str(addr, (buf + 1), (buf_size - 2),
 		    &size_ret);
 		if (0 != error)
